@@ -138,6 +138,15 @@ def per_dtype(add, ls, ids, dt, si, n, nt, tier, tmpdir):
                         return [[[key(np.array([val(dt, i)], dtype=dt).astype(dt2)[0].item()) for i in r] for r in v[3]], dt2]
                 if dt.startswith("float") and dt2 == "bool" or not dt.startswith("float"):
                     add("build " + show(ids), dt + ">" + dt2, guarded(ast), post_ast, "astype", nt, f"RaggedArray({vrows!r}, dtype='{dt}').astype('{dt2}')")
+            # the converted array is a new array (as ndarray.astype): writing into it leaves the array that was built reporting its rows
+            for dt2 in (dt, "int64", "float64"):
+                def ast_w(dt2=dt2):
+                    a = mk(); b = a.astype(dt2)
+                    b.fill(1)
+                    if b.size: b.ravel()[-1] = 0
+                    return [krows(a.tolist()), str(a.dtype)]
+                add("build " + show(ids), dt + ">" + dt2 + "/write", guarded(ast_w), lambda v: [tr(v[3]), dt], "astype-then-write-to-the-copy", nt,
+                    f"a = RaggedArray({vrows!r}, dtype='{dt}'); b = a.astype('{dt2}'); b.fill(1); a.tolist()")
             # to / from numpy
             def tonp():
                 m = mk().to_numpy_array()
